@@ -4,7 +4,7 @@
    Proofs/CatalogueInv.v.  `repaired c` = the code after fix-F-C15a.diff and fix-F-C15b.diff (fix_c free:
    both variants of IndexedStringField.__init__ are covered). *)
 From Coq Require Import ZArith List Bool.
-From EV Require Import Res Catalogue CatalogueSpec CatalogueBase CatalogueInv CatalogueRename CatalogueStep CatalogueObs CatalogueWitness.
+From EV Require Import Res Catalogue CatalogueSpec CatalogueBase CatalogueInv CatalogueRename CatalogueStep CatalogueObs CatalogueData CatalogueTrace CatalogueWitness.
 Import ListNotations.
 Open Scope Z_scope.
 
@@ -78,6 +78,26 @@ Theorem c15_moved_handle_invalid : forall c i d n j d' n' s s' sg f g,
              fld_type s' nf = fld_type s f /\ fld_data s' nf = fld_data s f.
 Proof. exact move_step_invalid. Qed.
 Print Assumptions c15_moved_handle_invalid.
+
+(* ---- (6) FULL, for BOTH code variants and whatever the outcome of the operation: a field object that exists
+   before a step has the same type and the same stored data after it ("untouched fields keep their data";
+   touched ones too) *)
+Theorem c15_fields_keep_data : forall c p s s' r f,
+  step c p s = (s', r) -> f < next_id s ->
+  fld_type s' f = fld_type s f /\ fld_data s' f = fld_data s f /\ next_id s <= next_id s'.
+Proof. exact step_keeps_data. Qed.
+Print Assumptions c15_fields_keep_data.
+
+(* ---- (7) PARTIAL trace theorem: on every history, in every step record that ./check compares with the real
+   code (run_case, handles registered by rescan), verdict 0 (names = groups) and verdict 1 (live handles keep type
+   and data) are true.  Missing for the full statement `case_ok c ops = true`: the observation-level forms of
+   verdict 2 (rename effect on handle names), verdict 3 (move) and of the final reopen comparison; their
+   state-level content is theorems (2)-(5) above, the lift to `observe` (completeness of the h5 path search over
+   the two files) is not done. *)
+Theorem c15_trace_inv_data_partial : forall c ops, fix_a c = true -> fix_b c = true ->
+  forall sr, In sr (fst (run_case c ops)) -> nth 0 (sr_flags sr) false = true /\ nth 1 (sr_flags sr) false = true.
+Proof. exact case_inv_data. Qed.
+Print Assumptions c15_trace_inv_data_partial.
 
 (* non-vacuity examples: Proofs/CatalogueWitness.v (repaired_rename_ok, repaired_move_ok) *)
 
